@@ -317,6 +317,34 @@ def shared_smooth_cofactor(rng, nbits, both):
       return p * q, p, q
 
 
+def shared_smooth_boundary(rng, nbits):
+  """gcd(n - 1, default product) is *exactly* 2^60 (the documented threshold):
+  p - 1 = 2^60 * a with a an odd squarefree product of primes in (863, 2^20)
+  (so p - 1 divides the product), q - 1 = 2^61 * c with c random, and the
+  cofactor of n - 1 coprime to every prime below 2^20."""
+  M = pollard_default_product()
+  sp = [x for x in small_primes() if x > 863]
+  hb = nbits // 2
+  while True:
+    a, used = 1, set()
+    while (a << 60).bit_length() < hb - 1:
+      r = rng.choice(sp)
+      if r not in used:
+        used.add(r)
+        a *= r
+    p = (a << 60) + 1
+    if p.bit_length() != hb or not is_prime(p):
+      continue
+    for _ in range(400):
+      c = rng.bits(hb - 61) | (1 << (hb - 62)) | 1
+      q = (c << 61) + 1
+      if q.bit_length() != hb or not is_prime(q):
+        continue
+      n = p * q
+      if math.gcd(n - 1, M) == 2 ** 60 and M % (p - 1) == 0:
+        return n, p, q
+
+
 def shared_smooth_squarefree(rng, nbits, both, bound):
   """p-1 and q-1 share a squarefree product (>= 2^60) of distinct odd primes
   below bound; p-1 is a squarefree product of primes below bound (so it
